@@ -62,9 +62,11 @@ class Session:
         self.mid = self.mid % 60000 + 1
         return self.mid
 
-    def conn(self, name, user=b"", will=None):
+    def conn(self, name, user=b"", will=None, connect=True):
         self.clients.append(name)
         self.ops.append("conn " + name)
+        if not connect:
+            return                     # a client that never sends CONNECT (the broker does not insist on one)
         if will:
             k, t, m, retain = will
             self.ops.append("connect %s %s 1 %d %s %s %s" % (name, hx(user), 1 if retain else 0, k, hx((b"" if k == "-" else b"/") + t), hx(m)))
